@@ -119,7 +119,7 @@ def _coverage(ctx, trace, n_shapes):
         raise vlib.Infra("C17: derived key types not all used through their primitive: missing %s" % sorted(TYPES - used))
     if multi < 20:
         raise vlib.Infra("C17: too few multi-key deriver keysets (%d)" % multi)
-    for k in ("distinct", "maprule", "stream", "derive:reuse", "derive:repeat"):
+    for k in ("distinct", "maprule", "stream", "derive:reuse", "derive:repeat", "derive:walk"):
         if c[k] == 0:
             raise vlib.Infra("C17: event class %s never executed" % k)
     ctx.cov["event_classes"] = dict(sorted(c.items()))
@@ -140,7 +140,9 @@ def run(ctx):
         "event judged by TLC against Derivation.tla (RFC 5869 in TLA+)")
     ctx.cov["buffers"] = ("the derivation salt lives in ONE reused buffer scribbled over after every call; on the same deriver object "
                           "DeriveKeyset(salt) x2 is followed by DeriveKeyset(other salt of the same length, same buffer) [kind=reuse] "
-                          "and DeriveKeyset(salt) again [kind=repeat], each judged by the reference; constructor inputs, messages, "
+                          "and DeriveKeyset(salt) again [kind=repeat]; every fourth deriver is additionally walked through the salt-length "
+                          "classes growing, shrinking down to empty and growing again incl. strict prefixes of earlier salts "
+                          "[kind=walk]; each call is its own event judged by the reference; constructor inputs, messages, "
                           "AD are scribbled likewise; handles are projected after the scribble")
     ctx.assumptions += ["HMAC/SHA, AES-GCM, ChaCha20-Poly1305, Ed25519 and the AES block are the JDK's",
                         "AES-GCM-HKDF streaming keys: usability is checked against an ordinary Tink key built from the derived "
